@@ -60,7 +60,7 @@ def judge(recipe, np_vals, cfg, rec, res, wd):
         "node": recipe["nodes"][e["node"]] if e.get("node") is not None else None,
         "in_leaves": [recipe["nodes"][j]["p"] for j in (recipe["nodes"][e["node"]]["in"] if e.get("node") is not None else [])
                       if recipe["nodes"][j]["op"] == "leaf"],
-        "has_zero_size": any(0 in (n.get("p", {}).get("shape") or [1]) for n in recipe["nodes"] if n["op"] in ("leaf", "create")),
+        "has_zero_size": gen.has_zero_size(np_vals),
     }
     out = []
     if not (set(e["mro"]) & ALLOWED):
@@ -81,8 +81,14 @@ EXTRA = ("exceptions_judged", "failed_after_entry")
 
 
 def run_shard(spec, workdir):
-    return _rc.run_cases(spec, workdir, prop=PROPERTY, judge=judge, extra_counters=EXTRA, nontrivial=nontrivial,
-                         gen_kw={"hostile": 1.0, "weights": {"linalg": 9, "concat": 9, "cum": 8, "misc": 9, "manip": 14, "index": 10}})
+    # budget split (DESIGN.md section 5): odd shards never generate zero-length dimensions, so the open
+    # finding KF-zero-size-chunk-arith cannot be reached there and any violation is new
+    allow_zero = spec.get("shard", 0) % 2 == 0
+    res = _rc.run_cases(spec, workdir, prop=PROPERTY, judge=judge, extra_counters=EXTRA, nontrivial=nontrivial,
+                        gen_kw={"hostile": 1.0, "allow_zero": allow_zero,
+                                "weights": {"linalg": 9, "concat": 9, "cum": 8, "misc": 9, "manip": 14, "index": 10}})
+    res["counters"]["runs_avoiding_open_findings" if not allow_zero else "runs_free_to_hit_open_findings"] = res["counters"]["runs"]
+    return res
 
 
 def replay(rep, workdir):
